@@ -40,7 +40,7 @@ SetAutoOff(s) ==
 Elapse1 == dev' = Elapse(dev, Step) /\ UNCHANGED <<air, running, view, lastCmd, seen>>
 Broadcast == Len(air) < MaxAir /\ air' = Append(air, Reported(dev)) /\ UNCHANGED <<dev, running, view, lastCmd, seen>>
 Lose == air # <<>> /\ air' = Tail(air) /\ UNCHANGED <<dev, running, view, lastCmd, seen>>
-Deliver == /\ running /\ air # <<>> /\ view' = Head(air) /\ air' = Tail(air) /\ seen' = seen + 1
+Deliver == /\ running /\ air # <<>> /\ view' = Head(air) /\ air' = Tail(air) /\ seen' = 1
            /\ UNCHANGED <<dev, running, lastCmd>>
 Start == ~running /\ running' = TRUE /\ UNCHANGED <<dev, air, view, lastCmd, seen>>
 Stop == running /\ running' = FALSE /\ UNCHANGED <<dev, air, view, lastCmd, seen>>
